@@ -6,6 +6,7 @@
 import RosuModel.Model.Curve
 import RosuModel.Lemmas.Outcome
 import RosuModel.Lemmas.ToyInt
+import RosuModel.Lemmas.ToyRat
 namespace Rosu.C16
 open Rosu Rosu.Curve
 
@@ -494,6 +495,302 @@ theorem monoLaws_int : MonoLaws Int Int where
     show decide (a ≤ a + x) = true
     simp only [decide_eq_true_eq]
     omega
+
+/-! ### law-dependent: the osu!-mode Catmull simplification preserves the length (telescoping) -/
+
+/-- the additive laws the telescoping identity needs, and symmetry of the distance; hypotheses, not axioms. -/
+structure SumLaws (P F : Type) [Scalar P] [Scalar F] [Cvt P F] : Prop where
+  add_assoc : ∀ a b c : F, a + b + c = a + (b + c)
+  add_comm : ∀ a b : F, a + b = b + a
+  add_zero : ∀ a : F, a + (0 : F) = a
+  sub_add_cancel : ∀ a b : F, a - b + b = a
+  dist_symm : ∀ a b : Pos P, Pos.length F (a - b) = Pos.length F (b - a)
+
+theorem natTotal_nil (c : F) : natTotal c ([] : List (Pos P)) = c := rfl
+theorem natTotal_single (c : F) (a : Pos P) : natTotal c [a] = c := rfl
+theorem natTotal_cons2 (c : F) (a b : Pos P) (t : List (Pos P)) :
+    natTotal c (a :: b :: t) = natTotal (c + Cvt.up (Pos.length F (b - a))) (b :: t) := rfl
+
+/-- appending a point adds the length of the new last segment (no law needed). -/
+theorem natTotal_snoc (c : F) (Q : List (Pos P)) (p x : Pos P) (h : Q.getLast? = some p) :
+    natTotal c (Q ++ [x]) = natTotal c Q + Cvt.up (Pos.length F (x - p)) := by
+  induction Q generalizing c with
+  | nil => simp at h
+  | cons a t ih =>
+    cases t with
+    | nil =>
+      simp at h; subst h
+      show natTotal c [a, x] = _
+      rw [natTotal_cons2]; rfl
+    | cons b t' =>
+      rw [List.getLast?_cons_cons] at h
+      show natTotal c (a :: b :: (t' ++ [x])) = _
+      rw [natTotal_cons2, natTotal_cons2]
+      exact ih _ h
+
+/-- shifting the seed shifts the total (exact arithmetic). -/
+theorem natTotal_shift (laws : SumLaws P F) (c d : F) (Q : List (Pos P)) :
+    natTotal (c + d) Q = natTotal c Q + d := by
+  induction Q generalizing c with
+  | nil => rfl
+  | cons a t ih =>
+    cases t with
+    | nil => rfl
+    | cons b t' =>
+      rw [natTotal_cons2, natTotal_cons2]
+      have : c + d + Cvt.up (Pos.length F (b - a)) = c + Cvt.up (Pos.length F (b - a)) + d := by
+        rw [laws.add_assoc, laws.add_comm d, ← laws.add_assoc]
+      rw [this]
+      exact ih _
+
+/-- invariant of the simplification loop after the points `Q` have been consumed: the pushed points `out`,
+seeded with the current `optimized_len` (plus the length removed since the last kept start), are as long as `Q`
+seeded with the initial `optimized_len`. -/
+def SimpInv (opt0 : F) (Q : List (Pos P)) (st : SimpState P F) : Prop :=
+  match st.lastStart with
+  | none => natTotal st.optLen st.out = natTotal opt0 Q ∧ st.out.getLast? = Q.getLast? ∧ st.lenRemoved = 0
+  | some ls => natTotal st.optLen st.out + st.lenRemoved = natTotal opt0 Q ∧ st.out.getLast? = some ls ∧ Q ≠ []
+
+theorem simplifyStep_inv (laws : SumLaws P F) (n : Nat) (opt0 : F) (Q : List (Pos P)) (st : SimpState P F)
+    (i : Nat) (prev curr : Pos P) (hprev : Q ≠ [] → Q.getLast? = some prev) (h : SimpInv opt0 Q st) :
+    SimpInv opt0 (Q ++ [curr]) (simplifyStep n st i prev curr) := by
+  unfold simplifyStep
+  cases hls : st.lastStart with
+  | none =>
+    simp only [SimpInv, hls] at h ⊢
+    obtain ⟨h1, h2, h0⟩ := h
+    refine ⟨?_, ?_, by simp⟩
+    · rw [h0, laws.add_zero]
+      cases Q with
+      | nil =>
+        simp only [List.getLast?_nil, List.getLast?_eq_none_iff] at h2
+        rw [h2] at h1 ⊢
+        exact h1
+      | cons a t =>
+        have hp := hprev (by simp)
+        rw [hp] at h2
+        rw [natTotal_snoc _ _ _ _ h2, natTotal_snoc _ _ _ _ hp, h1]
+    · simp
+  | some ls =>
+    simp only [SimpInv, hls] at h
+    obtain ⟨h1, h2, h3⟩ := h
+    have hp := hprev h3
+    have hQ : natTotal opt0 (Q ++ [curr]) = natTotal opt0 Q + Cvt.up (Pos.length F (curr - prev)) :=
+      natTotal_snoc _ _ _ _ hp
+    have hsym : (Cvt.up (Pos.distance F prev curr) : F) = Cvt.up (Pos.length F (curr - prev)) := by
+      unfold Pos.distance; rw [laws.dist_symm]
+    by_cases hc : (Scalar.lt (6 : F) (Cvt.up (Pos.distance F ls curr)) || (i + 1) % 100 == 0 || i == n - 1) = true
+    · -- the point is kept: `optimized_len += len_removed - dist_from_start`
+      show SimpInv opt0 (Q ++ [curr]) (if (Scalar.lt (6 : F) (Cvt.up (Pos.distance F ls curr)) || (i + 1) % 100 == 0 || i == n - 1) = true then
+          ({ out := st.out ++ [curr], lastStart := none, lenRemoved := 0,
+             optLen := st.optLen + (st.lenRemoved + Cvt.up (Pos.distance F prev curr) -
+               Cvt.up (Pos.distance F ls curr)) } : SimpState P F)
+        else { out := st.out, lastStart := some ls,
+               lenRemoved := st.lenRemoved + Cvt.up (Pos.distance F prev curr), optLen := st.optLen })
+      rw [if_pos hc]
+      simp only [SimpInv]
+      refine ⟨?_, by simp, trivial⟩
+      have hd : (Cvt.up (Pos.distance F ls curr) : F) = Cvt.up (Pos.length F (curr - ls)) := by
+        unfold Pos.distance; rw [laws.dist_symm]
+      rw [natTotal_snoc _ _ _ _ h2, natTotal_shift laws, hd, laws.add_assoc (natTotal st.optLen st.out),
+        laws.sub_add_cancel, ← laws.add_assoc, h1, hQ, hsym]
+    · show SimpInv opt0 (Q ++ [curr]) (if (Scalar.lt (6 : F) (Cvt.up (Pos.distance F ls curr)) || (i + 1) % 100 == 0 || i == n - 1) = true then
+          ({ out := st.out ++ [curr], lastStart := none, lenRemoved := 0,
+             optLen := st.optLen + (st.lenRemoved + Cvt.up (Pos.distance F prev curr) -
+               Cvt.up (Pos.distance F ls curr)) } : SimpState P F)
+        else { out := st.out, lastStart := some ls,
+               lenRemoved := st.lenRemoved + Cvt.up (Pos.distance F prev curr), optLen := st.optLen })
+      rw [if_neg hc]
+      simp only [SimpInv]
+      refine ⟨?_, h2, by simp⟩
+      rw [← laws.add_assoc, h1, hQ, hsym]
+
+theorem simplifyLoop_inv (laws : SumLaws P F) (n : Nat) (opt0 : F) : ∀ (rest Q : List (Pos P))
+    (st : SimpState P F) (i : Nat) (prev : Pos P), (Q ≠ [] → Q.getLast? = some prev) → SimpInv opt0 Q st →
+    SimpInv opt0 (Q ++ rest) (simplifyLoop n st i prev rest) := by
+  intro rest
+  induction rest with
+  | nil => intro Q st i prev _ h; simpa [simplifyLoop] using h
+  | cons curr rest ih =>
+    intro Q st i prev hprev h
+    have := ih (Q ++ [curr]) (simplifyStep n st i prev curr) (i + 1) curr (fun _ => by simp)
+      (simplifyStep_inv laws n opt0 Q st i prev curr hprev h)
+    simpa [simplifyLoop] using this
+
+/-- nothing has been removed while no start is pending. -/
+def SimpZ (st : SimpState P F) : Prop := st.lastStart = none → st.lenRemoved = 0
+
+/-- at the end of the loop nothing removed is left unbooked. -/
+def SimpFin (st : SimpState P F) : Prop := ∀ ls, st.lastStart = some ls → st.lenRemoved = 0
+
+theorem simplifyStep_Z (n : Nat) (st : SimpState P F) (i : Nat) (prev curr : Pos P) (h : SimpZ st) :
+    SimpZ (simplifyStep n st i prev curr) := by
+  unfold simplifyStep
+  cases hls : st.lastStart with
+  | none => intro h'; simp at h'
+  | some ls =>
+    simp only []
+    split
+    · intro _; rfl
+    · intro h'; simp [hls] at h'
+
+theorem simplifyStep_last (n : Nat) (st : SimpState P F) (prev curr : Pos P) (h : SimpZ st) :
+    SimpFin (simplifyStep n st (n - 1) prev curr) := by
+  unfold simplifyStep
+  cases hls : st.lastStart with
+  | none => intro ls _; exact h hls
+  | some ls =>
+    simp only [beq_self_eq_true, Bool.or_true, if_true]
+    intro ls' h'; simp at h'
+
+theorem simplifyLoop_fin (n : Nat) : ∀ (rest : List (Pos P)) (st : SimpState P F) (i : Nat) (prev : Pos P),
+    i + rest.length = n → SimpZ st → (rest = [] → SimpFin st) → SimpFin (simplifyLoop n st i prev rest) := by
+  intro rest
+  induction rest with
+  | nil => intro st i prev _ _ hf; simpa [simplifyLoop] using hf rfl
+  | cons curr rest ih =>
+    intro st i prev hi hz _
+    simp only [simplifyLoop]
+    apply ih
+    · simp at hi; omega
+    · exact simplifyStep_Z n st i prev curr hz
+    · intro hr
+      subst hr
+      have : i = n - 1 := by simp at hi; omega
+      subst this
+      exact simplifyStep_last n st prev curr hz
+
+/-- **`catmull_simplify_preserves_length`** (exact arithmetic): the points the osu!-mode simplification keeps,
+measured with the updated `optimized_len` as seed, are exactly as long as the full Catmull sub-path measured
+with the old one — whatever points the 6 px / every-100th / last-point rule keeps. -/
+theorem catmull_simplify_preserves_length (laws : SumLaws P F) (subPath : List (Pos P)) (opt0 : F) :
+    natTotal (catmullSimplify subPath opt0).2 (catmullSimplify subPath opt0).1 = natTotal opt0 subPath := by
+  have h := simplifyLoop_inv laws subPath.length opt0 subPath []
+    { out := [], lastStart := none, lenRemoved := 0, optLen := opt0 } 0 Pos.zero (fun h => absurd rfl h)
+    (by simp [SimpInv])
+  have hfin := simplifyLoop_fin subPath.length subPath
+    ({ out := [], lastStart := none, lenRemoved := 0, optLen := opt0 } : SimpState P F) 0 Pos.zero (by simp)
+    (fun _ => rfl) (fun _ ls hls => by simp at hls)
+  simp only [List.nil_append] at h
+  unfold catmullSimplify
+  simp only []
+  revert h hfin
+  generalize simplifyLoop subPath.length
+    ({ out := [], lastStart := none, lenRemoved := 0, optLen := opt0 } : SimpState P F) 0 Pos.zero subPath = st
+  intro h hfin
+  unfold SimpInv at h
+  cases hls : st.lastStart with
+  | none => rw [hls] at h; exact h.1
+  | some ls =>
+    rw [hls] at h
+    -- the loop ended right after a kept start: nothing has been removed since
+    have hz : st.lenRemoved = 0 := hfin ls hls
+    rw [hz, laws.add_zero] at h
+    exact h.1
+
+/-- the laws are satisfiable: the toy arithmetic on `Int`. -/
+theorem sumLaws_int : SumLaws Int Int where
+  add_assoc := Int.add_assoc
+  add_comm := Int.add_comm
+  add_zero a := by show a + ((0 : Nat) : Int) = a; simp
+  sub_add_cancel := Int.sub_add_cancel
+  dist_symm a b := by
+    have key : ∀ u v : Int, (u - v) * (u - v) = (v - u) * (v - u) := by
+      intro u v
+      have : v - u = -(u - v) := by omega
+      rw [this, Int.neg_mul_neg]
+    show Pos.length Int (Pos.sub a b) = Pos.length Int (Pos.sub b a)
+    simp only [Pos.length, Pos.sub, key a.x b.x, key a.y b.y]
+
+/-! ### law-dependent: the re-projected end point lies on the ray of its segment -/
+
+/-- multiplicative laws of the f32-side scalar used by `normalize` and `* f32`; hypotheses, not axioms. -/
+structure RayLaws (P : Type) [Scalar P] : Prop where
+  mul_assoc : ∀ a b c : P, a * b * c = a * (b * c)
+  recip_mul : ∀ a s : P, Scalar.recip a * s = s / a
+
+/-- **`cut_on_segment` / `extension_collinear`** (exact arithmetic): the new end point is
+`p_k + (p_{k+1} − p_k) · t` with the single parameter `t = (L − len_k) / |p_{k+1} − p_k|` — a point of the line
+through the segment, in the segment's own direction. It is *on* the segment when `t ≤ 1` (`cut_param_le_one`) and
+an extension of it otherwise. -/
+theorem end_point_on_ray (laws : RayLaws P) (opt : F) (path : List (Pos P)) (L : F) :
+    cutPoint opt path L =
+      let lv := cutIdx opt path L
+      let pp := path.getD (lv - 1) Pos.zero
+      let pe := path.getD lv Pos.zero
+      let lp := (natLens opt path).dropLast.getD (lv - 1) 0
+      pp + (pe - pp).smul (Cvt.down (L - lp) / Pos.length F (pe - pp)) := by
+  unfold cutPoint Pos.normalize Pos.smul
+  simp only [laws.mul_assoc, laws.recip_mul]
+
+/-- the laws are satisfiable: exact rational arithmetic. -/
+theorem rayLaws_rat : RayLaws Rat where
+  mul_assoc := Rat.mul_assoc
+  recip_mul a s := by
+    show (((1 : Nat) : Rat) / a) * s = s / a
+    rw [Rat.div_def, Rat.div_def]
+    have : ((1 : Nat) : Rat) = 1 := rfl
+    rw [this, Rat.one_mul, Rat.mul_comm]
+
+/-- order facts for the parameter; hypotheses, not axioms. -/
+structure OrdLaws (F : Type) [Scalar F] : Prop where
+  sub_pos : ∀ a b : F, Scalar.lt a b = true → Scalar.lt (0 : F) (b - a) = true
+  sub_le : ∀ a b s : F, Scalar.le b (a + s) = true → Scalar.le (b - a) s = true
+
+/-- the distance from `p_k` to the new end point is positive, and at most the segment's booked length
+`len_{k+1} − len_k` when `L ≤ len_{k+1}` (a cut). For every segment but the first the booked length is the
+segment's own length (`natLens`: `len_{k+1} = len_k + |p_{k+1} − p_k|`), so the parameter `t` is in `(0, 1]`:
+the cut point is on its segment. The first segment's booked length also carries the whole osu!-mode Catmull
+surplus `optimized_len` — there `t` can exceed 1 (finding F12). -/
+theorem cut_param_range (laws : OrdLaws F) (lenk lenk1 seg L : F)
+    (hk : Scalar.lt lenk L = true) (hk1 : Scalar.le L lenk1 = true) (hbook : lenk1 = lenk + seg) :
+    Scalar.lt (0 : F) (L - lenk) = true ∧ Scalar.le (L - lenk) seg = true :=
+  ⟨laws.sub_pos _ _ hk, laws.sub_le _ _ _ (hbook ▸ hk1)⟩
+
+theorem cumLens_step (c : F) (path : List (Pos P)) (j : Nat) (a b : Pos P) (x : F)
+    (ha : path[j + 1]? = some a) (hb : path[j + 2]? = some b) (hx : (cumLens c path).1[j]? = some x) :
+    (cumLens c path).1[j + 1]? = some (x + Cvt.up (Pos.length F (b - a))) := by
+  induction path generalizing c j with
+  | nil => simp at ha
+  | cons p t ih =>
+    cases t with
+    | nil => simp at ha
+    | cons q t' =>
+      rw [cumLens_cons2] at hx ⊢
+      cases j with
+      | zero =>
+        simp only [List.getElem?_cons_succ, List.getElem?_cons_zero] at hx ha hb ⊢
+        cases hx; cases ha
+        cases t' with
+        | nil => simp at hb
+        | cons r t'' =>
+          simp only [List.getElem?_cons_zero] at hb
+          cases hb
+          rw [cumLens_cons2]
+          simp
+      | succ j =>
+        simp only [List.getElem?_cons_succ] at hx ha hb ⊢
+        exact ih _ j ha hb hx
+
+/-- consecutive natural lengths differ by the segment's own length, from the second segment on
+(`len_{k+1} = len_k + |p_{k+1} − p_k|` for `k ≥ 1`; `len_1 = optimized_len + |p_1 − p_0|` while `len_0 = 0`). -/
+theorem natLens_step (opt : F) (path : List (Pos P)) (k : Nat) (a b : Pos P) (x : F)
+    (hk : 1 ≤ k) (ha : path[k]? = some a) (hb : path[k + 1]? = some b) (hx : (natLens opt path)[k]? = some x) :
+    (natLens opt path)[k + 1]? = some (x + Cvt.up (Pos.length F (b - a))) := by
+  obtain ⟨j, rfl⟩ : ∃ j, k = j + 1 := ⟨k - 1, by omega⟩
+  unfold natLens at hx ⊢
+  simp only [List.getElem?_cons_succ] at hx ⊢
+  exact cumLens_step opt path j a b x ha hb hx
+
+theorem ordLaws_int : OrdLaws Int where
+  sub_pos a b h := by
+    have h' : a < b := by simpa [Scalar.lt] using h
+    show decide (((0 : Nat) : Int) < b - a) = true
+    simp only [decide_eq_true_eq]; omega
+  sub_le a b s h := by
+    have h' : b ≤ a + s := by simpa [Scalar.le] using h
+    show decide (b - a ≤ s) = true
+    simp only [decide_eq_true_eq]; omega
 
 /-! ### non-vacuity: a toy arithmetic on `Int` (no law is needed by the theorems above) -/
 
